@@ -1,4 +1,6 @@
 import PortusModel.Props.C16
+import PortusModel.Props.C19
+#print axioms Portus.C19.recv_never_panics
 #print axioms Portus.C16.loopStep_ok
 #print axioms Portus.C16.run_no_panic
 #print axioms Portus.C16.run_bytes_no_panic
